@@ -256,7 +256,7 @@ impl Property for C09 {
         let env = FEnv {
             props: &props,
             labels: &labels,
-            cfg: FCfg { max_quant_depth: 4, ..FCfg::EXTENDED_WEAK },
+            cfg: FCfg { max_quant_depth: 6, ..FCfg::EXTENDED_WEAK },
             binders: &gen::BINDERS,
         };
         let fs = gen::resolve_batch(raw, &env);
